@@ -202,7 +202,7 @@ public:
                      "self-assignment of a collection (m = m empties it on the unchanged tree) is outside the property's quantifier and is not generated"};
     return i;
   }
-  long defaultRuns(Tier t) const override { return t == QUICK ? 150000 : 4000000; }
+  long defaultRuns(Tier t) const override { return t == QUICK ? 300000 : 4000000; }
 
   // enumerated prefix: all histories of length <= L over the 0..6 universe, for the 3 coordinate types
   static const long NOPS = 49 * 3 + 2;   // add/restrict/filter (a,b in 0..6) + clear + copy
